@@ -634,11 +634,12 @@ def c10j(ctx):
     show the content of the forbidden area again"""
     fn = ctx.fn('mapproxy/image/mask.py:mask_image')
     defs = Defs(fn.node)
-    pastes = [x for x in fn.walk() if isinstance(x, ast.Call) and isinstance(x.func, ast.Attribute) and x.func.attr == 'paste' and len(x.args) >= 3]
+    pastes = [x for x in fn.walk() if isinstance(x, ast.Call) and isinstance(x.func, ast.Attribute) and x.func.attr == 'paste' and len(x.args) + len(x.keywords) >= 3 and x.args]
     ok = False
     for x in pastes:
         col = resolve_const_tuple(x.args[0], defs)
-        if col is not None and len(col) == 4 and col[3] == 0 and is_call(fn.canon.expr(x.args[2]), 'image_mask_from_geom'):
+        m = keyword(x, 'mask', 2)        # PIL: Image.paste(im, box=None, mask=None)
+        if col is not None and len(col) == 4 and col[3] == 0 and m is not None and is_call(fn.canon.expr(m), 'image_mask_from_geom'):
             ok = True
     ctx.check(ok, 'mask_image:content-overwritten', 'the masked pixels are overwritten with a constant colour of alpha 0 (paste(<const RGBA>, .., mask))', fn,
               fail='mask_image does not overwrite the clipped pixels (it only changes their alpha / leaves them): the colours of the forbidden '
